@@ -13,7 +13,12 @@ IDS_CHECKS="${ISO_CHECKS:-C01 C02 C03 C04 C05 C06 C07 C08 C09 C10 C11 C12 C13 C1
 rm -rf "$ISO"; mkdir -p "$ISO"
 git -C /repo worktree prune
 git -C /repo worktree add --detach "$ISO/repo" HEAD >/dev/null 2>&1 || { echo "cannot create scratch worktree"; exit 2; }
-rsync -a --exclude 'target-*' --exclude 'replay' --exclude '.git' --exclude 'evidence' /verif/ "$ISO/verif/"
+if [ -n "${ISO_REV:-}" ]; then
+  # run the machinery as committed at $ISO_REV (e.g. the tag taken before a strengthening round)
+  mkdir -p "$ISO/verif"; git -C /verif archive "$ISO_REV" | tar -x -C "$ISO/verif"
+else
+  rsync -a --exclude 'target-*' --exclude 'replay' --exclude '.git' --exclude 'evidence' /verif/ "$ISO/verif/"
+fi
 sed -i "s|path = \"/repo\"|path = \"$ISO/repo\"|" "$ISO/verif/harness/Cargo.toml"
 mkdir -p "$ISO/verif/evidence" "$ISO/verif/replay"
 cleanup() { git -C /repo worktree remove --force "$ISO/repo" >/dev/null 2>&1; rm -rf "$ISO"; }
